@@ -482,6 +482,9 @@ func (c capLogger) rec(msg string, args ...interface{}) {
 	}
 	sc := c.sc
 	switch msg {
+	case "call":
+		// a new Call starts: Dijkstra runs of an enclosing, unlogged call do not belong to it
+		sc.pops = nil
 	case "reachTarget":
 		sc.events = append(sc.events, "ev reach "+sc.vertexName(get("target")))
 	case "conv is missing an input":
@@ -637,18 +640,7 @@ func (sc *scenario) callOnce() []string {
 	case res.Err() != nil:
 		lines = append(lines, "res err "+sc.classifyErr(res.Err()))
 	default:
-		var os []string
-		if target.Form == "built" && len(target.Outs) > 0 && res.Len() == 1 {
-			// a built function returns its output struct: one id per field after the marker
-			sv := reflect.ValueOf(res.Out(0))
-			for i := 1; i < sv.NumField(); i++ {
-				os = append(os, fmt.Sprint(vidOf(sv.Field(i))))
-			}
-		} else {
-			for i := 0; i < res.Len(); i++ {
-				os = append(os, fmt.Sprint(vidOf(reflect.ValueOf(res.Out(i)))))
-			}
-		}
+		os := renderOuts(target, res)
 		lines = append(lines, "res ok "+strings.Join(os, ","))
 	}
 	return lines
@@ -701,4 +693,21 @@ func (sc *scenario) dumpGraph(redefining bool, extra ...am.Arg) string {
 		st = "err"
 	}
 	return fmt.Sprintf("dump %s v=%s e=%s", st, strings.Join(vs, ","), strings.Join(es, ","))
+}
+
+// renderOuts lists the provenance ids of a successful result (a built function returns its output
+// struct: one id per field after the marker).
+func renderOuts(target *fnSpec, res am.Result) []string {
+	var os []string
+	if target.Form == "built" && len(target.Outs) > 0 && res.Len() == 1 {
+		sv := reflect.ValueOf(res.Out(0))
+		for i := 1; i < sv.NumField(); i++ {
+			os = append(os, fmt.Sprint(vidOf(sv.Field(i))))
+		}
+		return os
+	}
+	for i := 0; i < res.Len(); i++ {
+		os = append(os, fmt.Sprint(vidOf(reflect.ValueOf(res.Out(i)))))
+	}
+	return os
 }
